@@ -56,10 +56,10 @@ def repo_test_traces() -> List[dict]:
     d = tempfile.mkdtemp(prefix="repotests_")
     try:
         out = os.path.join(d, "traces.ndjson")
-        env = dict(os.environ, VERIF_TRACE_OUT=out, PYTHONPATH=os.path.dirname(os.path.dirname(os.path.dirname(os.path.abspath(__file__)))) + ":/repo/src")
+        env = dict(os.environ, VERIF_TRACE_OUT=out, PYTHONPATH=os.path.dirname(os.path.dirname(os.path.dirname(os.path.abspath(__file__)))) + ":" + os.environ.get("VF_REPO", "/repo") + "/src")
         r = subprocess.run(["/venv/bin/python", "-m", "pytest", "-q", "-p", "no:cacheprovider", "-p", "vf.pytest_vio", "--timeout=300",
                             "tests/test_integration.py", "tests/test_sync.py", "tests/test_encoding.py"],
-                           cwd="/repo", env=env, capture_output=True, text=True, timeout=900)
+                           cwd=os.environ.get("VF_REPO", "/repo"), env=env, capture_output=True, text=True, timeout=900)
         if not os.path.exists(out):
             raise RuntimeError("recording plugin produced no traces:\n" + (r.stdout + r.stderr)[-1500:])
         return [json.loads(l) for l in open(out)], r.returncode
